@@ -175,7 +175,7 @@ pub const C34: Check = Check {
            from the installed snapshot and is the oracle's input; after a successful regular run through the real server \
            step, refresh_wait() is read with wall-clock stamps taken before and after the run so that the bound is \
            two-sided without a tolerance constant: lower(t_before) - elapsed <= wait <= upper(t_after), plus the \
-           statement's inequalities floor <= wait <= max(refresh, min-refresh). exhaustive over the finite product; \
+           statement's inequalities floor <= wait <= max(refresh, min-refresh); with min-refresh set a third run follows whose payload is unchanged but whose data set expires at another time, and the wait must follow that expiry. exhaustive over the finite product; \
            distinct = (refresh, min-refresh class, expiry class) cells",
     assumptions: &["expiry has one-second resolution (Time); one extra second of slack is granted on the expiry-driven branch only"],
     shards: |_| 4,
@@ -218,7 +218,8 @@ fn run_c34(ctx: &mut Ctx, rep: &mut Report) {
             // initial data set first (the property is about regular, non-initial runs)
             hooks.set_snapshot(model.snapshot_with_refresh(expiry));
             if srv.process_once(false).is_err() { rep.inconclusive("run failed"); continue }
-            hooks.set_snapshot(model.mutate(&mut rng).snapshot_with_refresh(expiry));
+            let second = model.mutate(&mut rng);
+            hooks.set_snapshot(second.snapshot_with_refresh(expiry));
             let t_before = SystemTime::now();
             if srv.process_once(false).is_err() { rep.inconclusive("run failed"); continue }
             let t_after = SystemTime::now();
@@ -254,6 +255,31 @@ fn run_c34(ctx: &mut Ctx, rep: &mut Report) {
             rep.class(format!("r{}|m{}|e{}", refresh, mclass, eclass));
             if rep.samples.len() < 3 { rep.sample(replay); }
             let _ = rep_i;
+            // A third run whose payload is identical to the second one's but whose data set expires at another time
+            // (objects were re-issued): the wait must follow the data set of this run.
+            if min_refresh.is_some() {
+                let off3: i64 = if eclass == 2 { refresh as i64 + 120 } else { (refresh as i64 / 2).max(1) };
+                let expiry3 = Some(Time::new(chrono::Utc::now() + chrono::Duration::seconds(off3)));
+                hooks.set_snapshot(second.snapshot_with_refresh(expiry3));
+                let t_before = SystemTime::now();
+                if srv.process_once(false).is_err() { rep.inconclusive("run failed"); continue }
+                let t_after = SystemTime::now();
+                let wait = srv.history.read().refresh_wait();
+                let t_read = SystemTime::now();
+                rep.eval();
+                let exp_t = expiry3.map(SystemTime::from);
+                let next_lo = { let a = t_before + refresh_d; match exp_t { Some(e) if e < a => e, _ => a } };
+                let next_hi = { let a = t_after + refresh_d; match exp_t { Some(e) if e < a => e, _ => a } };
+                let lower = std::cmp::max(next_lo.duration_since(t_read).unwrap_or(Duration::ZERO), floor);
+                let upper = std::cmp::max(next_hi.duration_since(t_after).unwrap_or(Duration::ZERO), floor);
+                let slack = Duration::from_secs(1);
+                if wait + slack < lower || wait > upper + slack {
+                    rep.violation("C34/expiry-of-unchanged-payload-not-honoured", format!(
+                        "third run with unchanged payload but data-set expiry moved from offset {:?}s to {off3}s: wait {:?} outside [{:?}, {:?}] (refresh {refresh}s, min-refresh {:?})", expiry_off, wait, lower, upper, min_refresh),
+                        json!({"refresh": refresh, "min_refresh": min_refresh, "first_expiry_offset_s": expiry_off, "second_expiry_offset_s": off3, "wait_s": wait.as_secs_f64()}));
+                }
+                rep.class(format!("r{}|m{}|e{}|unchanged-payload-new-expiry", refresh, mclass, eclass));
+            }
         }
     }
     Hooks::uninstall();
